@@ -355,6 +355,49 @@ pub open spec fn starts_ok(b: Seq<u8>, lines: Seq<Seq<u8>>, starts: Seq<usize>, 
 //@     line_start_chars
 //@ }
 //#end
+// the same table in the rebase replay (transform_changed_files_to_final_state)
+//#item file=src/authorship/rebase_authorship.rs kind=region name=fs_offsets_rebase in=transform_changed_files_to_final_state from="let mut line_start_chars = Vec::with_capacity(line_count);" to="for (line_idx, line_content) in final_lines.iter().enumerate() {" from_nth=0 to_nth=0 to_exclusive=yes opaque='[{"expr": "final_content[char_pos..].starts_with(\"\\r\\n\")", "call": "opq_at_crlf(&final_content, char_pos)"}, {"expr": "final_content[char_pos..].starts_with(\u0027\\n\u0027)", "call": "opq_at_lf(&final_content, char_pos)"}]'
+//@ fn region_fs_offsets_rebase(line_count: usize, final_lines: Vec<&str>, final_content: String) -> (line_start_chars: Vec<usize>)
+//@     requires line_bytes(final_lines@) == lines_of(sb(final_content)),    // `final_lines` is `final_content.lines().collect()`
+//@         sb(final_content).len() <= usize::MAX,
+//@     ensures
+//@         // for LF and CRLF text alike: entry i is the byte offset at which line i's text sits in the content
+//@         line_start_chars@.len() == final_lines@.len(),
+//@         starts_ok(sb(final_content), line_bytes(final_lines@), line_start_chars@, final_lines@.len() as int),
+//@ {
+//@     let ghost b = sb(final_content);
+//@     let ghost ps = split_of(b, 0x0a);
+//@     let ghost ls = line_bytes(final_lines@);
+//@     proof { lemma_split_nonempty(b, 0x0a); encode_utf8_valid_utf8(final_content@); is_char_boundary_start_end_of_seq(b); }
+                let mut line_start_chars = Vec::with_capacity(line_count);
+                let mut char_pos = 0usize;
+                for line in it_0: &final_lines
+                //@     invariant
+                //@         b == sb(final_content), ps == split_of(b, 0x0a), ls == line_bytes(final_lines@), ls == lines_of(b), valid_utf8(b), b.len() <= usize::MAX, is_char_boundary(b, b.len() as int),
+                //@         it_0.snapshot@.remaining().len() == ls.len(), forall|i: int| 0 <= i < ls.len() ==> (#[trigger] it_0.snapshot@.remaining()[i]).spec_bytes() == ls[i],
+                //@         line_start_chars@.len() == it_0.index@, starts_ok(b, ls, line_start_chars@, it_0.index@),
+                //@         char_pos == (if it_0.index@ < ps.len() { poff(ps, it_0.index@) } else { b.len() as int }),
+                {
+                    //@ let ghost k = it_0.index@;
+                    //@ let ghost st0 = line_start_chars@;
+                    //@ proof { assert(line.spec_bytes() == ls[k]); lemma_advance(b, k); }
+                    line_start_chars.push(char_pos);
+                    char_pos += line.len();
+                    //@ proof {
+                    //@     let pos = char_pos as int;
+                    //@     if pos < b.len() { is_char_boundary_iff_not_is_continuation_byte(b, pos); }
+                    //@     assert(starts_ok(b, ls, line_start_chars@, k + 1)) by { assert forall|i: int| 0 <= i < k + 1 implies (#[trigger] line_start_chars@[i]) + ls[i].len() <= b.len() && b.subrange(line_start_chars@[i] as int, line_start_chars@[i] + ls[i].len()) == ls[i] by { if i < k { assert(line_start_chars@[i] == st0[i]); } } }
+                    //@ }
+                    // Skip the line terminator that is actually there ("\r\n" counts two bytes)
+                    if opq_at_crlf(&final_content, char_pos) {
+                        char_pos += 2;
+                    } else if opq_at_lf(&final_content, char_pos) {
+                        char_pos += 1;
+                    }
+                }
+//@     line_start_chars
+//@ }
+//#end
 
 } // verus!
 fn main() {}
